@@ -97,6 +97,12 @@ def render(spec: T.Dict[str, T.Any], sd: str) -> None:
                   BUILD_TMPL.format(name=q(TOP), proj='', defaults=lit(spec.get('top_defaults', [])),
                                     optnames=lit([o['name'] for o in spec['top']]),
                                     subproject=f"subproject({q(SUB)})" if sub is not None else ''))
+    if spec.get('late'):
+        # a post-configuration script that fails on demand: a failure *after* coredata.dat and cmd_line.txt were written
+        with open(os.path.join(sd, 'meson.build'), 'a') as f:
+            f.write("meson.add_postconf_script('latefail.sh')\n")
+        _write_atomic(os.path.join(sd, 'latefail.sh'), '#!/bin/sh\ntest ! -e "$MESON_SOURCE_ROOT/ARMED_LATE"\n')
+        os.chmod(os.path.join(sd, 'latefail.sh'), 0o755)
     write_options(os.path.join(sd, 'meson.options'), spec['top'])
     if sub is not None:
         d = os.path.join(sd, 'subprojects', SUB)
